@@ -59,7 +59,23 @@ CHECKS['C09'] = {
     'technique': 'bounded exhaustive exploration (configuration x program space) against a reference interpreter',
 }
 
+CHECKS['C03'] = {
+    'text': 'Every operator class of the odl namespace (211 by introspection; the registry instantiates '
+            'them over small spaces with their option sets and follows adjoint / inverse / derivative / '
+            'gradient / proximal / convex_conj / T to reach classes defined inside methods) is called '
+            'out-of-place and in-place with three prior contents of out (poisoned, 1e30, another '
+            'result) and two memory layouts: result in range, returned object is out, equal values, '
+            'input bit-identical. Unconvertible inputs and foreign out objects must raise '
+            'OpDomainError / OpRangeError (TypeError for functionals) leaving out untouched. The '
+            'class-level _call dispatch is explored over all 4x4 signature pairs of an inheritance '
+            'lattice x 2 range kinds x all 6 instantiation orders, plus all return conventions.',
+    'note': 'a fixed deterministic point set per domain kind (3 quick / 5 thorough) stands in for '
+            '"random inputs": the protocol clauses are value-independent code paths; closure '
+            'operators are judged only where their plain call succeeds; astra/CUDA back-ends absent',
+    'technique': 'bounded exhaustive exploration (configuration space + dispatch histories), differential oracle',
+}
+
 _PENDING = 'check under construction in this session; not claimed until it runs quietly on the unchanged tree'
 NOT_APPLICABLE = dict((p, _PENDING) for p in
-                      ['C01', 'C02', 'C03', 'C04', 'C05', 'C06', 'C11', 'C12',
+                      ['C01', 'C02', 'C04', 'C05', 'C06', 'C11', 'C12',
                        'C13', 'C14', 'C15', 'C16', 'C17', 'C18', 'C19', 'C20'])
